@@ -605,7 +605,8 @@ func runC11(c *engine.Ctx) {
 					}
 					if b, ok := call.Common().Value.(*ssa.Builtin); ok && b.Name() == "close" {
 						if _, isChan := call.Common().Args[0].Type().Underlying().(*types.Chan); isChan {
-							if _, base := engine.LoadedField(call.Common().Args[0]); base == ssa.Value(recv) {
+							// the group's own channel (also when the teardown was moved into a method of the group)
+							if _, base := engine.LoadedField(call.Common().Args[0]); base != nil && types.Identical(base.Type(), recv.Type()) {
 								return "close-chan"
 							}
 						}
